@@ -17,7 +17,8 @@ def units(tier):
 def runner_tasks(tier):
     return [{"module": "c19", "task": "order_total", "kind": "eval", "clause": "sort key vs Hill order, key injectivity; all symbol/isotope/charge classes"},
             {"module": "c19", "task": "hill", "kind": "bounded", "clause": "composition, order, canonicity, idempotence, parsed == hill"},
-            {"module": "stateful", "task": "C19", "name": "stateful C19", "kind": "bounded", "clause": "Hill form of mixed-table formulas, of isotope ions in one charge state, of trace counts"}]
+            {"module": "stateful", "task": "C19", "name": "stateful C19", "kind": "bounded", "clause": "Hill form of mixed-table formulas, of isotope ions in one charge state, of trace counts"},
+            {"module": "independence", "task": "observations", "name": "independence", "kind": "bounded", "arg": {"tags": ["C19"]}, "clause": "fixed observations give the same value as the first use of the library in a fresh interpreter, in a warmed-up interpreter (twice) and in reverse order, and have their documented value", "timeout": 900}]
 
 
 REPLAY = {"module": "c19", "task": "replay"}
